@@ -339,7 +339,7 @@ def _xml_delta(x, y):
 
 # ---- system ------------------------------------------------------------------------------------------
 
-GEN_INITS = ["gen:rich", "out_of_order", "non_contiguous"]
+GEN_INITS = ["gen:rich", "out_of_order", "non_contiguous", "gen:orphan-jump-target", "gen:notes-without-master-rel"]
 
 
 def _gen_rich():
@@ -358,10 +358,59 @@ def _gen_rich():
 _BLOBS = {}
 
 
+def _gen_orphan_jump_target():
+    """A deck as left by common 'delete slide' recipes: slide 2 is removed from the slide list (p:sldId and the
+    presentation relationship) but is still the target of a jump action on slide 1, hence still in the package."""
+    live = prs_ops.build("two_slides")
+    for op in [{"op": "target_slide", "slide": 0, "to": 1}]:
+        prs_ops.apply(live, op)
+    m = F.zip_members(F.save_bytes(live.prs))
+    NSP = "http://schemas.openxmlformats.org/presentationml/2006/main"
+    root = etree.fromstring(m["ppt/presentation.xml"])
+    lst = root.find("{%s}sldIdLst" % NSP)
+    victim = list(lst)[1]
+    rid = victim.get("{%s}id" % opc_ref.R_NS)
+    lst.remove(victim)
+    m["ppt/presentation.xml"] = etree.tostring(root, xml_declaration=True, encoding="UTF-8", standalone=True)
+    rels = etree.fromstring(m["ppt/_rels/presentation.xml.rels"])
+    for r in list(rels):
+        if r.get("Id") == rid:
+            rels.remove(r)
+    m["ppt/_rels/presentation.xml.rels"] = etree.tostring(rels, xml_declaration=True, encoding="UTF-8", standalone=True)
+    return F.write_zip(m)
+
+
+def _gen_notes_without_master_rel():
+    """A deck with a notes slide whose presentation part has lost its notesMaster relationship (and
+    p:notesMasterIdLst), as left by 'copy slide with its rels' recipes; the notes master stays reachable through the
+    notes slide."""
+    live = prs_ops.build("two_slides")
+    prs_ops.apply(live, {"op": "notes_text", "slide": 0, "text": "n"})
+    m = F.zip_members(F.save_bytes(live.prs))
+    NSP = "http://schemas.openxmlformats.org/presentationml/2006/main"
+    rels = etree.fromstring(m["ppt/_rels/presentation.xml.rels"])
+    rid = None
+    for r in list(rels):
+        if r.get("Type", "").endswith("/notesMaster"):
+            rid = r.get("Id")
+            rels.remove(r)
+    m["ppt/_rels/presentation.xml.rels"] = etree.tostring(rels, xml_declaration=True, encoding="UTF-8", standalone=True)
+    root = etree.fromstring(m["ppt/presentation.xml"])
+    nm = root.find("{%s}notesMasterIdLst" % NSP)
+    if nm is not None:
+        root.remove(nm)
+    m["ppt/presentation.xml"] = etree.tostring(root, xml_declaration=True, encoding="UTF-8", standalone=True)
+    return F.write_zip(m)
+
+
 def initial_blob(name):
     if name not in _BLOBS:
         if name == "gen:rich":
             _BLOBS[name] = _gen_rich()
+        elif name == "gen:orphan-jump-target":
+            _BLOBS[name] = _gen_orphan_jump_target()
+        elif name == "gen:notes-without-master-rel":
+            _BLOBS[name] = _gen_notes_without_master_rel()
         else:
             _BLOBS[name] = prs_ops.initial_blob(name)
     return _BLOBS[name]
@@ -418,10 +467,14 @@ class System:
         return "calls>0" if r.calls else "calls=0"
 
     def canon(self, live):
+        # populated lazy caches are part of the state: a save (which changes nothing in the package) fills caches
+        # that a later traversal may invalidate - merging "saved" with "not saved" would hide exactly that
+        from mc.drivers import state as _state
+        flags = _state.cache_flags(live.prs.part.package)
         live._blob = F.save_bytes(live.prs)
         live._canon = canon_package(live._blob)
         h = hashlib.sha1(repr(sorted((k, v[:3]) for k, v in live._canon.items())).encode()).hexdigest()
-        return h
+        return (h, hashlib.sha1(repr(flags).encode()).hexdigest())
 
     def check(self, live, init, hist, part):
         base = baseline_canon(init)
@@ -466,7 +519,7 @@ def attribute(init, hist):
 
 def run(ctx):
     decks = ["corpus:" + F.corpus_name(p) for p in F.corpus()]
-    small = ["gen:rich", "out_of_order", "corpus:features/steps/test_files/cht-charts.pptx",
+    small = ["gen:rich", "out_of_order", "gen:orphan-jump-target", "gen:notes-without-master-rel", "corpus:features/steps/test_files/cht-charts.pptx",
              "corpus:features/steps/test_files/tbl-cell.pptx", "corpus:features/steps/test_files/shp-shapes.pptx",
              "corpus:features/steps/test_files/test.pptx", "corpus:features/steps/test_files/prs-notes.pptx",
              "corpus:features/steps/test_files/txt-font-props.pptx"]
